@@ -1,7 +1,7 @@
 #!/bin/sh
 # Confirm a seeded change in its scratch worktree: suite passes with the change, demo PASS on /repo, FAIL on the changed tree.
-# usage: tools/seedverify.sh <PROP> [seed-number]   (worktree /tmp/seed_<PROP>, stored as seeded/S-<PROP>-<n>)
-P="$1"; N="${2:-1}"; WT="/tmp/seed_$P"; D="/verif/seeded/S-$P-$N"
+# usage: tools/seedverify.sh <PROP> [seed-number] [worktree]   (worktree /tmp/seed_<PROP>, stored as seeded/S-<PROP>-<n>)
+P="$1"; N="${2:-1}"; WT="${3:-/tmp/seed_$P}"; D="/verif/seeded/S-$P-$N"
 cd "$WT" || exit 2
 git -C "$WT" diff --quiet -- problog && { echo "no change applied in $WT"; exit 2; }
 SUITE=$(cd "$WT" && PYTHONPATH="$WT" timeout 1800 /venv/bin/python -m pytest -q -p no:cacheprovider -n 6 problog/test 2>&1 | tail -1)
